@@ -154,8 +154,27 @@ class Exec(Interp):
                 return Opaque(rv["to"])
             iv = S.ivof(s)
             full = D.rng(rng[0], rng[1])
+            src_rng = self.st.range(s)
+            if src_rng[0] < rng[0] or src_rng[1] > rng[1]:
+                # a cast that can change the value for some inputs of the source type: NARROW obligation
+                fits = D.subset(iv, full)
+                if not fits and s in S.lin:
+                    l = S.lin[s]
+                    fits = S.entails(l.addc(-rng[1])) and S.entails(l.scale(-1).addc(rng[0]))
+                    if fits:
+                        iv = D.meet(iv, full)
+                if len(site) >= 3 and isinstance(site[1], int):
+                    inst_ = self.cur_inst
+                    self.oblige("NARROW", inst_, site[1], "%s->%s%s" % (self.types[rv["from"]]["s"], to["s"], self.cast_ordinal(inst_, site[1], site[2])), fits, S, None, None if fits else {"operand": D.fmt(iv), "target": D.fmt(full)})
             if D.subset(iv, full):
                 return Scalar(self.fresh(("v",) + site, rng, S, iv, S.term(s)))
+            from . import lemmas as _lm
+
+            for row in _lm.LEMMAS:
+                if row["kind"] == "NARROW" and row["function"] == self.cur_inst["name"] and "consequence" in row:
+                    lo_, hi_ = row["consequence"]["cast_result"]
+                    self.lemma_uses[row["id"]] = self.lemma_uses.get(row["id"], 0) + 1
+                    return Scalar(self.fresh(("v",) + site, rng, S, D.meet(D.rng(lo_, hi_), full)))
             # possible truncation / sign reinterpretation: modular image when cheap, else top
             bits = to["bits"] if to["k"] == "int" else None
             if bits is not None and D.size(iv) <= 4096:
@@ -177,6 +196,20 @@ class Exec(Interp):
                 return v
             return Opaque(rv["to"])
         return Opaque(rv["to"])
+
+    def cast_ordinal(self, inst, bi, si):
+        """#n of this int-to-int cast among the casts of the function (block/statement order)."""
+        cache = inst.setdefault("_castord", None)
+        if cache is None:
+            cache = {}
+            n = 0
+            for i, b in enumerate(inst["body"]["blocks"]):
+                for j, st in enumerate(b["stmts"]):
+                    if st["k"] == "assign" and st["rv"]["k"] == "cast" and st["rv"]["ck"] == "IntToInt":
+                        cache[(i, j)] = "#%d" % n
+                        n += 1
+            inst["_castord"] = cache
+        return cache.get((bi, si), "#?")
 
     def rvalue(self, S, frame, rv, site, dest_ty=None):
         k = rv["k"]
@@ -579,6 +612,127 @@ class Exec(Interp):
             if any(nw[k] is not w[k] for k in w):
                 S.when[s] = nw
 
+    def loop_check(self, inst, frame, heads, inputs, edges):
+        """LOOP rule (DESIGN §3.9): every CFG cycle is bounded by (a) a `next` on an iterator that is
+        finite by construction, executed on every iteration, or (b) an integer measure hi - lo that is
+        non-negative and strictly decreases on every back edge."""
+        preds = self.preds_of(inst)
+        dom = self.dominators(inst)
+        for n, h in enumerate(sorted(heads)):
+            if h not in inputs:
+                continue
+            body = self.loop_body(inst, h)
+            back = [p for p in preds.get(h, []) if p in body and (p, h) in edges and not edges[(p, h)].dead]
+            if not back:
+                continue
+            why = None
+            # (a) iterator-driven
+            for (fr, bi), finite in self.iter_sites.items():
+                if fr == frame and bi in body and finite and all(bi in dom.get(p, ()) for p in back):
+                    why = "iterator next() in bb%d on a finite iterator" % bi
+                    break
+            # (b) decreasing measure between two head symbols / a head symbol and an invariant symbol
+            if why is None:
+                J = inputs[h]
+                phis = []
+                for cell, v in J.cells.items():
+                    if isinstance(cell, tuple) and len(cell) == 2 and cell[0] == frame and isinstance(v, Scalar):
+                        key = self.st.keys[v.sym]
+                        if isinstance(key, tuple) and key[0] == "phi" and key[1] == (frame, h) and self.st.range(v.sym) != (0, 1):
+                            phis.append((cell, v.sym))
+                cands = []
+                for c1, p1 in phis:
+                    for c2, p2 in phis:
+                        if p1 != p2:
+                            cands.append(((c1, p1), (c2, p2)))
+                    # against loop-invariant symbols related by a fact
+                    for f in J.facts:
+                        if p1 in f.t:
+                            for x in f.t:
+                                if x != p1 and not self.defined_in_loop(x, frame, body) and self.st.range(x) != (0, 1):
+                                    cands.append(((c1, p1), (None, x)))
+                # bounded counter: p' = p + c (c >= 1) on every back edge and p' has a finite upper bound
+                for c1, p1 in phis:
+                    okc = True
+                    bound = None
+                    for p in back:
+                        B = edges[(p, h)]
+                        nv_ = B.cells.get(c1)
+                        l_ = B.lin.get(nv_.sym) if isinstance(nv_, Scalar) else None
+                        if l_ is None or set(l_.t) != {p1} or l_.t[p1] != 1 or l_.c < 1:
+                            okc = False
+                            break
+                        hi_b = D.hi(B.ivof(nv_.sym))
+                        if hi_b >= (1 << 40):
+                            okc = False
+                            break
+                        bound = hi_b if bound is None else max(bound, hi_b)
+                    if okc:
+                        why = "counter s%d increases on every back edge and stays <= %d" % (p1, bound)
+                        break
+                if why is not None:
+                    cands = []
+                for (clo, lo_), (chi, hi_) in cands:
+                    ok = True
+                    for p in self.measure_edges(inst, h, body, back, edges, [c for c in (clo, chi) if c is not None]):
+                        B = edges[p]
+                        if B.dead:
+                            continue
+                        nlo = B.cells.get(clo)
+                        nhi = B.cells.get(chi) if chi is not None else None
+                        tlo = B.term(nlo.sym) if isinstance(nlo, Scalar) else None
+                        thi = B.term(nhi.sym) if isinstance(nhi, Scalar) else (B.term(hi_) if chi is None else None)
+                        if tlo is None or thi is None:
+                            ok = False
+                            break
+                        m_new = thi.sub(tlo)
+                        m_old = B.term(hi_).sub(B.term(lo_)) if chi is not None else B.term(hi_).sub(Lin.var(lo_))
+                        m_old = Lin.var(hi_).sub(Lin.var(lo_))
+                        # decreasing by at least one and still non-negative
+                        if not (B.entails(m_new.sub(m_old).addc(1)) and B.entails(m_new.scale(-1))):
+                            ok = False
+                            break
+                    if ok:
+                        why = "measure s%d - s%d decreases on every back edge and stays >= 0" % (hi_, lo_)
+                        break
+            key = (inst["name"], "#%d" % n)
+            prev = self.loop_reports.get(key)
+            if prev is None or (prev[0] and why is None):
+                self.loop_reports[key] = (why is not None, why or "no finite iterator and no decreasing measure found", inst["body"]["blocks"][h]["term"].get("span"))
+
+    def measure_edges(self, inst, h, body, back, edges, cells):
+        """Edges on which to test a loop measure: the back edges, or — when a back-edge source is
+        reached through a chain of blocks that do not assign the measured locals — the edges
+        entering the last merge block before it (so the test is path-wise, before the join)."""
+        preds = self.preds_of(inst)
+        blocks = inst["body"]["blocks"]
+        locs = {c[1] for c in cells}
+
+        def assigns(bi):
+            for st in blocks[bi]["stmts"]:
+                if st["k"] == "assign" and st["place"]["l"] in locs and not st["place"]["p"]:
+                    return True
+            t = blocks[bi]["term"]
+            return t["k"] == "call" and t["dest"]["l"] in locs and not t["dest"]["p"]
+
+        out = []
+        for p in back:
+            cur = p
+            hops = 0
+            while hops < 6 and not assigns(cur):
+                ps = [q for q in preds.get(cur, []) if (q, cur) in edges]
+                if len(ps) == 1 and ps[0] in body and ps[0] != h:
+                    cur = ps[0]
+                    hops += 1
+                    continue
+                if len(ps) > 1 and all(q in body for q in ps) and cur != h:
+                    out.extend((q, cur) for q in ps)
+                    cur = None
+                break
+            if cur is not None:
+                out.append((p, h))
+        return out
+
     def dominators(self, inst):
         d = inst.get("_dom")
         if d is not None:
@@ -859,6 +1013,8 @@ class Exec(Interp):
           # decreasing iterations from the post-fixpoint: recompute widened loop heads without widening
           narrowing = True
           work = sorted(widened)
+        if heads:
+            self.loop_check(inst, frame, heads, inputs, edges)
         ret_state = None
         for bi in sorted(rets):
             U = rets[bi]
